@@ -29,6 +29,29 @@ theorem WF.nodup {t : FTree} (h : WF t) : (t.children.map FTree.name).Nodup := b
   | file n => exact List.nodup_nil
   | dir n cs hn _ => exact hn
 
+mutual
+/-- Executable form of `WF`. -/
+def wfB : FTree → Bool
+  | .file _ => true
+  | .dir _ cs => decide ((cs.map FTree.name).Nodup) && wfBs cs
+def wfBs : List FTree → Bool
+  | [] => true
+  | c :: cs => wfB c && wfBs cs
+end
+
+theorem wfBs_all (cs : List FTree) : wfBs cs = cs.all wfB := by
+  induction cs with
+  | nil => simp [wfBs]
+  | cons c cs ih => simp [wfBs, ih]
+
+theorem wfB_sound (t : FTree) : wfB t = true → WF t := by
+  induction t using FTree.ind with
+  | hf n => intro _; exact WF.file n
+  | hd n cs ih =>
+    intro h
+    simp only [wfB, wfBs_all, Bool.and_eq_true, decide_eq_true_eq, List.all_eq_true] at h
+    exact WF.dir n cs h.1 (fun c hc => ih c hc (h.2 c hc))
+
 /-! ### `findChild`, `subtree` -/
 
 theorem findChild_some {n : Name} {cs : List FTree} {c : FTree} (h : findChild n cs = some c) :
@@ -298,7 +321,7 @@ theorem findChild_filter (x y : Name) (cs : List FTree) :
         simp [hy, ih, hx, findChild, h2]
     · by_cases hx : c.name = x
       · have : ¬ x = y := fun e => hy (hx ▸ e)
-        simp [hy, findChild, hx, this]
+        simp [findChild, hx, this]
       · simp [hy, findChild, hx, ih]
 
 theorem findChild_map (x : Name) (f : FTree → FTree) (hf : ∀ c, (f c).name = c.name) (cs : List FTree) :
@@ -357,16 +380,16 @@ theorem kindAt_foldl_removeAt (L : List Path) (hL : ∀ p ∈ L, p ≠ []) (t : 
     by_cases h1 : ∃ x ∈ ps, x <+: q
     · have : ∃ x ∈ p :: ps, x <+: q := by
         obtain ⟨x, hx, hq⟩ := h1; exact ⟨x, List.mem_cons_of_mem _ hx, hq⟩
-      simp [h1, this]
+      simp [h1]
     · by_cases h2 : p <+: q
       · have : ∃ x ∈ p :: ps, x <+: q := ⟨p, List.mem_cons_self, h2⟩
-        simp [h1, h2, this]
+        simp [h1, h2]
       · have : ¬ ∃ x ∈ p :: ps, x <+: q := by
           rintro ⟨x, hx, hq⟩
           rcases List.mem_cons.1 hx with e | e
           · exact h2 (e ▸ hq)
           · exact h1 ⟨x, e, hq⟩
-        simp [h1, h2, this]
+        simp [h1, h2]
 
 /-! ### the command loop -/
 
